@@ -83,7 +83,7 @@ def partitions(tier):
                           params=dict(S=48, prefix=prefix, rsv=rsv, oldlens=olds,
                                       lens=lens, long=True)))
     for S in ([496] if tier == "quick" else [496, 872, 2032]):
-        for prefix, rsv in [("", []), ("L", [(16 + S, (S - 48 + 63) // 64)]),
+        for prefix, rsv in [("", []), ("L", [(896 if S == 872 else 16 + S, (S - 48 + 63) // 64)]),
                             ("NM", [(320, 8)])]:
             parts.append(dict(name="t2:%d:%s:long" % (S, prefix or "-"), fn="t2",
                               params=dict(S=S, prefix=prefix, rsv=rsv, oldlens=[0, 254, 255],
